@@ -406,7 +406,7 @@ func c08Child(ctx *runCtx, spec string) {
 	var n, r, rounds int
 	var seed int64
 	fmt.Sscanf(spec, "N=%d R=%d rounds=%d seed=%d", &n, &r, &rounds, &seed)
-	c, err := cluster.Start(cluster.Config{Replicas: r, Partitions: 13, TableSize: 1 << 20, EvictionWorkers: 2}, n)
+	c, err := cluster.Start(cluster.Config{Replicas: r, Partitions: 13, TableSize: 1 << 20, EvictionWorkers: 2, ReadRepair: r > 1 && seed%2 == 1}, n)
 	if err != nil {
 		ctx.rep.Inconclusive("cluster start: " + err.Error())
 		return
